@@ -15,7 +15,7 @@ from checks.c03_jackknife import close_abs
 from engines import contracts
 from oracles import jack
 from vlib import cats, gen
-from vlib.core import HELD, VIOLATED, Check, Scratch, result
+from vlib.core import HELD, VIOLATED, Check, Scratch, result, case_bits
 
 ALL_SUBSETS = [list(c) for r in range(1, 4) for c in itertools.combinations(("dr", "rd", "rr"), r)]
 
@@ -131,7 +131,7 @@ class C04(Check):
     def _estimator(self, case, rng, bad, counters):
         nb, npatch = int(rng.integers(1, 9)), int(rng.integers(2, 13))
         cf = gen.gen_corrfunc(rng, nb, npatch, case["auto"], members=case["members"])
-        self._check_estimator(cf, bad, counters, touch=case["seed"] % 2 == 0)
+        self._check_estimator(cf, bad, counters, touch=case_bits(case, "touch") % 2 == 0)
 
     def _nz(self, case, rng, bad, counters):
         from yaw import CorrData, RedshiftData
